@@ -655,6 +655,7 @@ static void exec_asm(Run &R, TaskRt &T, int ti, int oi, const Op &op) {
   if (a.via_file) {
     a.path = op.path;
     SimFile *f = file_lookup(op.path);
+    if (f && f->kind == 3) f = file_lookup(f->data);  // a symbolic link names the file it points to
     if (f) {
       file_kind = f->kind;
       a.text = f->data;
